@@ -762,6 +762,20 @@ func (u *Unit) havocLoop(st *State, body ast.Node, extra []ast.Node, ls *LoopSpe
 		return true
 	})
 	defer u.assumeTypeInvs(st)
+	// ghost locals assigned at anchors may change in the body: forget them at the loop head
+	if u.c != nil {
+		for _, gas := range u.c.GhostAt {
+			for _, ga := range gas {
+				if id, ok := ga.LHS.(*ast.Ident); ok {
+					if old, ok := st.lets[id.Name]; ok && old.K == vScalar && old.S != "" {
+						nv := old
+						nv.T = u.fresh("ghost_"+id.Name, old.S)
+						st.lets[id.Name] = nv
+					}
+				}
+			}
+		}
+	}
 	if u.c != nil && len(u.c.GhostAt) > 0 && !writes {
 		// ghost variables assigned at anchors may change in the body
 		for _, gas := range u.c.GhostAt {
